@@ -1,0 +1,5 @@
+//go:build !verif
+
+package cluster
+
+func verifPoint(point string, index int) error { return nil }
